@@ -13,6 +13,7 @@ ANCHORS = ("evaluation/match.py", "evaluation/affinity.py")
 THOROUGH_SHARDS = 12
 AMBIENT_TESTS = ["tests/test_evaluation"]
 _installed = False
+_prev = []
 BRUTE_MAX = 7
 
 
@@ -137,6 +138,26 @@ def judge(ctx, ss, ts, tb, fb):
         ctx.mon("repeat_call")
         if sorted(map(repr, first)) != sorted(map(repr, second)):
             ctx.violate("repeat_call_differs", "repeat_call_differs", observed=[first[:4], second[:4]], expected="same matching", spec=spec)
+        # two live, lazily consumed results at once (``zip(match(a, b), match(c, d))``, a nested match inside a loop
+        # over matches): each stream is judged exactly as a stream consumed on its own
+        if not _prev and getattr(ctx, "replaying", False):
+            _prev[:] = [(list(tgt), list(src), tb, fb)]
+        if _prev and ctx.every(spec, 3):
+            orig = instrument.original(M.match_geometries)
+            psrc, ptgt, ptb, pfb = _prev[0]
+            ga, gb = iter(orig(src, tgt, time_buffer=tb, freq_buffer=fb)), iter(orig(psrc, ptgt, time_buffer=ptb, freq_buffer=pfb))
+            ia, ib, live = [], [], [True, True]
+            while any(live):
+                for k, (g, acc) in enumerate(((ga, ia), (gb, ib))):
+                    if live[k]:
+                        try:
+                            acc.append(next(g))
+                        except StopIteration:
+                            live[k] = False
+            ctx.mon("interleaved_streams")
+            _observe(src, tgt, tb, fb, ia)
+            _observe(list(psrc), list(ptgt), ptb, pfb, ib)
+        _prev[:] = [(src, tgt, tb, fb)]
         # ... and a third call on the same objects with other buffers (judged by the same stream monitor)
         tb3, fb3 = (tb * 8, fb * 4) if tb < 0.1 else (tb / 8, fb / 4)
         list(M.match_geometries(src, tgt, time_buffer=tb3, freq_buffer=fb3))
